@@ -3,6 +3,7 @@ package main
 import (
 	"database/sql"
 	"database/sql/driver"
+	"encoding/json"
 	"errors"
 	"fmt"
 	"reflect"
@@ -207,6 +208,18 @@ type TJsonWide struct {
 		A int
 		B string
 	} `sql:",json"`
+	Any interface{}             `sql:",json"` // untyped payloads: numbers are float64 after a round trip
+	Mi  map[string]interface{}  `sql:",json"`
+	Li  []interface{}           `sql:",json"`
+	Raw json.RawMessage         `sql:",json"`
+	Pm  *map[string]interface{} `sql:",json"`
+}
+
+// TJsonOdd: a json tag on []byte, which Scanner.Scan handles before it looks at tags (a json-tagged
+// time.Time is rejected at registration by ValidateSQLType).
+type TJsonOdd struct {
+	Id int64  `sql:",primary"`
+	B  []byte `sql:",json"`
 }
 
 type tableInfo struct {
@@ -218,7 +231,7 @@ type tableInfo struct {
 var catalogue = []tableInfo{
 	{"ints", TInts{}, nil}, {"uints", TUints{}, nil}, {"floats", TFloats{}, nil}, {"text", TText{}, nil},
 	{"times", TTime{}, nil}, {"implicit", TImplicit{}, nil}, {"tagged", TTagged{}, nil}, {"mixed", TMixed{}, nil},
-	{"self", TSelf{}, nil}, {"self2", TSelf2{}, nil}, {"jsonwide", TJsonWide{}, nil},
+	{"self", TSelf{}, nil}, {"self2", TSelf2{}, nil}, {"jsonwide", TJsonWide{}, nil}, {"jsonodd", TJsonOdd{}, nil},
 }
 
 // TSelf2 doubles the weight of the self-scanning types in the catalogue (plain copies of the columns).
@@ -231,7 +244,7 @@ type TSelf2 struct {
 }
 
 // oracleOnly tables are run and judged but not compared with the model.
-var oracleOnly = map[string]bool{"jsonwide": true}
+var oracleOnly = map[string]bool{"jsonwide": true, "jsonodd": true}
 
 func newSchema() *sqlgen.Schema {
 	s := sqlgen.NewSchema()
@@ -250,4 +263,5 @@ var (
 	ctextType   = reflect.TypeOf(CText{})
 	cuuidType   = reflect.TypeOf(CUuid{})
 	nullStrType = reflect.TypeOf(sql.NullString{})
+	rawMsgType  = reflect.TypeOf(json.RawMessage(nil))
 )
